@@ -1253,3 +1253,39 @@ def loop_walk_any(fn, loop):
             not [w_ for w_ in local_writes(fn, nm, must=False) if fn.text(w_) not in ("++" + nm, nm + "++")]:
         return {"dir": "forward", "container": fn.text(c["recv"]), "var": nm, "elem": r"^(\(?\*%s\)?|%s->)" % (re.escape(nm), re.escape(nm))}
     return None
+
+
+def resume_follows_clear(ctx, tag):
+    """Once runOnceImpl has taken the suspended chain out of active_action_chain_state_ (it clears the field before resuming), every
+    path to the end of the function resumes the chain - unless the saved plugin is no longer in the action group.  Nothing else
+    (log silencing, whether a group fired on this tick) may decide whether the suspended chain continues.  Shared by C02 and C06."""
+    P, cg = ctx.prog, ctx.cg
+    impl = ctx.fn1("Oomd::Engine::Ruleset::runOnceImpl")
+    clears = [w for w in field_writes(impl, "active_action_chain_state_") if "nullopt" in impl.text(write_rhs(impl, w)) or impl.text(write_rhs(impl, w)) in ("{}", "std::optional()")]
+    for i in impl.calls("reset"):
+        if "active_action_chain_state_" in impl.text(impl.nodes[i].get("recv", -1)):
+            clears.append(i)
+    rac = [i for i in impl.calls("Ruleset::run_action_chain") if "begin()" not in impl.text(impl.nodes[i]["args"][0])]
+    if not clears or not rac:
+        ctx.broken("resume-follows-clear", "anchor", impl.loc(), "runOnceImpl has no clearing of active_action_chain_state_ / no resuming run_action_chain call")
+        return
+    ev = {w: [("set", "cleared")] for w in clears}
+    ev.update({i: [("set", "resumed")] for i in rac})
+    NOTFOUND = re.compile(r"^\((\w+(@\d+)? == this->action_group_\.c?end\(\)|this->action_group_\.c?end\(\) == \w+(@\d+)?)\)$")
+    bad = []
+    for w in clears:
+        if impl.pos_of(w) is None:
+            continue
+        # everything reachable from the block in which the state is cleared
+        fl = Flow(P, impl, events=ev, cg=cg, start=impl.pos_of(w)[0],
+                  edge_tokens=lambda k, p: ["not-found"] if (isinstance(k, str) and p is True and NOTFOUND.match(k)) else None)
+        for kind, node, b, parts in fl.exits():
+            if kind not in ("return", "fallthrough"):
+                continue
+            for st in parts.values():
+                if "resumed" not in st.must and "not-found" not in st.must:
+                    bad.append(impl.loc(node) if node is not None else kind)
+    ctx.check(not bad, "resume-follows-clear", "must_follow", impl.loc(clears[0]),
+              "after the suspended state was taken, every path resumes the chain (or the saved plugin is gone)",
+              "runOnceImpl can clear the suspended state and leave (%s) without resuming the chain although the saved plugin is still in the action group: "
+              "the suspended action and the rest of its chain never run (and a fresh chain may start from the first action)" % ", ".join(sorted(set(bad))[:3]))
